@@ -294,7 +294,7 @@ def applyInfo (v : IRValue) (vi : ValueInfoP) : Except Err IRValue := do
 
 /-- `_should_create_value_info_for_value` serde.py:1699-1719 -/
 def shouldCreateVI (v : IRValue) : Bool :=
-  !(v.shape.isNone && v.type.isNone && v.mprops.isEmpty && v.doc.isEmpty) && !v.name.isEmpty
+  !(v.type.isNone && v.mprops.isEmpty && v.doc.isEmpty) && !v.name.isEmpty
 
 /-- `serialize_value_into(proto, value, name=...)` serde.py:2289-2315 -/
 def serValueAs (name : String) (v : IRValue) : ValueInfoP :=
@@ -514,6 +514,15 @@ end IRGraph
 /-- `Attributes({attr.name: attr for attr in attrs})` _graph_containers.py:412-419 -/
 def attrDict (as : List IRAttr) : List IRAttr := dictByKey IRAttr.name [] as
 
+/-- names in order of first occurrence -/
+def dedupStr : List String → List String
+  | [] => []
+  | x :: xs => x :: (dedupStr xs).filter (· ≠ x)
+
+/-- the attributes `as` (distinct names) in the order in which their names first occur in `names` -/
+def orderByFirst (names : List String) (as : List IRAttr) : List IRAttr :=
+  (dedupStr names).filterMap fun n => as.find? (fun a => a.name = n)
+
 def tableNames (tbl : List IRValue) : List String := tbl.map (·.name)
 
 /-- annotation for a tensor name: `{a.tensor_name: a for a in ...}` keeps the last -/
@@ -624,6 +633,26 @@ def listSet {α : Type} : List α → Nat → α → List α
   | _ :: xs, 0, a => a :: xs
   | x :: xs, i + 1, a => x :: listSet xs i a
 
+/-- the `Value` created for an initializer that is not a graph input: type and shape from the
+tensor (serde.py:819-829) -/
+def initV0 (t : IRTensor) (dt : Int) : IRValue :=
+  { IRValue.blank t.name with
+    type := some (.tensor dt ""), shape := some (t.shape.map fun d => (IRDim.int d, "")),
+    const := some t }
+
+/-- a value_info without type / shape does not erase what the tensor tells (serde.py:830-837) -/
+def fillFrom (v0 v : IRValue) : IRValue :=
+  { v with type := v.type <|> v0.type, shape := v.shape <|> v0.shape }
+
+def newInitValue (vis : List ValueInfoP) (q : List AnnotP) (t : IRTensor) : Except Err IRValue := do
+  let dt ← t.dtype
+  let v1 ← match findVI vis t.name with
+    | some vi => do
+      let v ← applyInfo (initV0 t dt) vi
+      .ok (fillFrom (initV0 t dt) v)
+    | none => .ok (initV0 t dt)
+  .ok (applyQuant q v1)
+
 /-- initializers serde.py:802-837: returns (table, initializer indices in proto order) -/
 def desInitializers (vis : List ValueInfoP) (q : List AnnotP) :
     List IRTensor → List IRValue → Except Err (List IRValue × List Nat)
@@ -636,15 +665,8 @@ def desInitializers (vis : List ValueInfoP) (q : List AnnotP) :
         let (tbl', is) ← desInitializers vis q ts (listSet tbl i { v with const := some t })
         .ok (tbl', i :: is)
       | none => do
-        let dt ← t.dtype
-        let v0 : IRValue :=
-          { IRValue.blank t.name with
-            type := some (.tensor dt ""), shape := some (t.shape.map fun d => (IRDim.int d, "")),
-            const := some t }
-        let v1 ← match findVI vis t.name with
-          | some vi => applyInfo v0 vi
-          | none => .ok v0
-        let (tbl', is) ← desInitializers vis q ts (tbl ++ [applyQuant q v1])
+        let v ← newInitValue vis q t
+        let (tbl', is) ← desInitializers vis q ts (tbl ++ [v])
         .ok (tbl', tbl.length :: is)
 
 /-- graph outputs serde.py:857-873 -/
@@ -717,6 +739,17 @@ def desAttrs (scopes : Scopes) : List AttrP → Except Err (List IRAttr)
     let xs ← desAttrs scopes as
     .ok (x :: xs)
 
+/-- node attributes: only the last attribute of every name is deserialized (serde.py:1417-1423,
+`{a.name: a for a in proto.attribute}.values()`); `orderByFirst` then restores the dict order -/
+def desAttrsLast (scopes : Scopes) : List AttrP → Except Err (List IRAttr)
+  | [] => .ok []
+  | a :: as =>
+    if as.any (fun b => b.name = a.name) then desAttrsLast scopes as
+    else do
+      let x ← desAttr scopes a
+      let xs ← desAttrsLast scopes as
+      .ok (x :: xs)
+
 /-- `_deserialize_node` serde.py:1308-1414; `tbl` is the current scope's table (state) -/
 def desNode (outer : Scopes) (vis : List ValueInfoP) (q : List AnnotP) (tbl : List IRValue) :
     NodeP → Except Err (IRNode × List IRValue)
@@ -725,9 +758,9 @@ def desNode (outer : Scopes) (vis : List ValueInfoP) (q : List AnnotP) (tbl : Li
     let scopes := tableNames tbl' :: outer
     let outs ← desNodeOutputs (tableNames tbl') outputs
     let dcs := devcfgs.map (desNodeDevCfg scopes)
-    let as ← desAttrs scopes attrs
-    .ok (.mk (normDomain domain) opType overload name doc ins outs (attrDict as)
-          (dictOfEntries metadata) dcs, tbl')
+    let as ← desAttrsLast scopes attrs
+    .ok (.mk (normDomain domain) opType overload name doc ins outs
+          (orderByFirst (attrs.map AttrP.name) as) (dictOfEntries metadata) dcs, tbl')
 
 def desNodes (outer : Scopes) (vis : List ValueInfoP) (q : List AnnotP) :
     List NodeP → List IRValue → Except Err (List IRNode × List IRValue)
@@ -1062,11 +1095,14 @@ def desFunctions : List FunctionP → Except Err (List IRFunction)
     let xs ← desFunctions fs
     .ok (x :: xs)
 
+/-- `graph.opset_imports.update(...)` on the freshly built main graph (serde.py:621) -/
+def IRGraph.setOpsets : IRGraph → List OpsetP → IRGraph
+  | .mk t i n ns o name doc _ mp, ops => .mk t i n ns o name doc ops mp
+
 /-- `deserialize_model` serde.py:611-655 -/
 def desModel (m : ModelP) : Except Err IRModel := do
   let g ← desGraph [] m.graph
-  let g := match g with
-    | .mk t i n ns o name doc _ mp => IRGraph.mk t i n ns o name doc (opsetDict m.opsetImport) mp
+  let g := g.setOpsets (opsetDict m.opsetImport)
   let fs ← desFunctions m.functions
   let fs := functionDict [] fs
   let fs ← if m.irVersion < 10 then applyExperimentalAll m.graph.valueInfo fs else .ok fs
@@ -1077,6 +1113,7 @@ def desModel (m : ModelP) : Except Err IRModel := do
 
 /-- `_serialize_experimental_value_info_for_function_ir9_into` serde.py:1722-1772 -/
 def serExperimental (f : IRFunction) : List ValueInfoP :=
+  if !f.overload.isEmpty then [] else
   let tbl := f.graph.table
   let go := fun (is : List Nat) => is.flatMap fun i =>
     let v := tbl.getD i (IRValue.blank "")
@@ -1117,7 +1154,8 @@ def desNodeAlone (n : NodeP) : Except Err (IRNode × List IRValue) := do
 * value_info: entries for names that are neither an initializer (that is not a graph input) nor a
   node output (that is not a graph output) are dropped, entries carrying no information are
   dropped, an entry (element type and dims of the tensor) is added for every initializer without
-  an informative one, and the list is put in the order initializers, node outputs;
+  one, the entry of an initializer is completed from the tensor (type, leaf shape) where it says
+  nothing, and the list is put in the order initializers, node outputs;
 * quantization annotations are put in the order inputs, initializers, node outputs, graph outputs
   (an annotation list is a map keyed by tensor name; only its order changes);
 * below IR version 10 a function's value_info lives in the main graph under
@@ -1142,12 +1180,27 @@ def normAnnot (a : AnnotP) : AnnotP := { a with params := normEntries a.params }
 /-- non-empty output names of all nodes, in order -/
 def nodeOutNames (ns : List NodeP) : List String := (ns.flatMap NodeP.outputs).filter (· ≠ "")
 
+/-- the leaf tensor type gets `dims` as its shape when it has none -/
+def fillLeafShape (dims : ShapeP) : TypeP → TypeP
+  | .tensor e none den => .tensor e (some dims) den
+  | .sparse e none den => .sparse e (some dims) den
+  | .sequence e den => .sequence (fillLeafShape dims e) den
+  | .optional e den => .optional (fillLeafShape dims e) den
+  | t => t
+
+/-- value-info of an initializer, completed from the tensor: type when it has none, shape when it
+has none (serde.py:819-837) -/
+def fillFromTensor (vi : ValueInfoP) (t : TensorP) : ValueInfoP :=
+  { vi with type := match vi.type with
+      | .unset _ => (defaultVI t).type
+      | tp => fillLeafShape (t.dims.map fun d => ⟨.value d, ""⟩) tp }
+
 def normInitVIs (vis : List ValueInfoP) (inputNames : List String) : List TensorP → List ValueInfoP
   | [] => []
   | t :: ts =>
     (if inputNames.contains t.name then [] else
       match findVI vis t.name with
-      | some vi => if viHasInfo vi then [normValueInfo vi] else [defaultVI t]
+      | some vi => [normValueInfo (fillFromTensor vi t)]
       | none => [defaultVI t]) ++ normInitVIs vis inputNames ts
 
 def normNodeVIs (vis : List ValueInfoP) (outputNames : List String) : List String → List ValueInfoP
@@ -1223,6 +1276,7 @@ def normFunction (createVI : Bool) (f : FunctionP) : FunctionP :=
 
 /-- the experimental entries `domain::name/value` a model below IR version 10 carries for `f` -/
 def experimentalVIs (f : FunctionP) : List ValueInfoP :=
+  if !f.overload.isEmpty then [] else
   (normFnVIs f.valueInfo (f.inputs ++ nodeOutNames f.nodes)).map fun vi =>
     { vi with name := f.domain ++ "::" ++ f.name ++ "/" ++ vi.name }
 
@@ -1344,7 +1398,6 @@ def wfGraph (outer : Scopes) : GraphP → Bool
       && inputs.all wfVI && outputs.all wfVI && valueInfo.all wfVI
       && nodupStr (valueInfo.map (·.name))
       && valueInfo.all (fun vi => !inputNames.contains vi.name && !outputNames.contains vi.name)
-      && valueInfo.all (fun vi => initNames.contains vi.name → viHasInfo vi)
       && nodupStr outputNames
       && outputNames.all (fun n => !inputNames.contains n && !initNames.contains n)
       && initializers.all (fun t => wfTensor t && validDType t.dataType)
@@ -1353,6 +1406,11 @@ def wfGraph (outer : Scopes) : GraphP → Bool
       && wfEntries metadata
       && wfNodes (names :: outer) nodes
 end
+
+/-- function identifiers `(domain, name, overload)` pairwise distinct -/
+def nodupKeys : List (String × String × String) → Bool
+  | [] => true
+  | x :: xs => !xs.contains x && nodupKeys xs
 
 def wfFunction (ver : Int) (f : FunctionP) : Bool :=
   let outs := nodeOutNames f.nodes
@@ -1397,7 +1455,7 @@ def wfModel (m : ModelP) : Bool :=
   wfGraph [] m.graph && m.functions.all (wfFunction m.irVersion)
     && wfEntries m.metadata
     && nodupStr (m.opsetImport.map (·.domain))
-    && nodupStr (m.functions.map fun f => f.domain ++ "\x00" ++ f.name ++ "\x00" ++ f.overload)
+    && nodupKeys (m.functions.map fun f => (f.domain, f.name, f.overload))
     && (decide (m.irVersion ≥ 11) ||
         (m.configuration.isEmpty && !graphHasDevCfg m.graph
           && m.functions.all (fun f => !nodesHaveDevCfg f.nodes)))
